@@ -39,6 +39,10 @@ func main() {
 	}
 	repoDir = *repo
 	verifDir = *vdir
+	if *fluent == "COVERAGE" {
+		runCoverageSurvey()
+		return
+	}
 	if *survey {
 		runSiblingSurvey()
 		return
